@@ -23,6 +23,7 @@ func main() {
 		evd := fs.String("evidence", "/verif/evidence", "evidence dir")
 		known := fs.String("known", "/verif/known-findings.txt", "known findings file")
 		noev := fs.Bool("no-evidence", false, "do not write evidence (used by the self-audit)")
+		dump := fs.Bool("all", false, "print every obligation")
 		if len(os.Args) < 3 {
 			usage()
 		}
@@ -36,7 +37,7 @@ func main() {
 			*tier = t
 		}
 		os.Exit(runCheck(runOpts{prop: prop, tier: *tier, repo: *repo, evidenceDir: *evd,
-			knownFile: *known, seed: seed, noEvidence: *noev}))
+			knownFile: *known, seed: seed, noEvidence: *noev, dumpAll: *dump}))
 	case "errsets":
 		dumpErrSets("/repo")
 	case "list":
